@@ -16,6 +16,8 @@ assert o.strip() == "", "repo not clean: " + o
 rc, o = sh("git -C /repo apply %s/patch.diff" % d)
 assert rc == 0, o
 res = {}
+# the mutated run must not leave its evidence / generated tables behind
+saved = {p: open("/verif/evidence/%s.json" % p).read() for p in props if os.path.exists("/verif/evidence/%s.json" % p)}
 try:
     for prop in props:
         rc, o = sh("bin/check %s --tier quick" % prop)
@@ -28,6 +30,9 @@ try:
             res[prop]["broken_legs"] = [str(x)[:200] for x in (r.get("broken_legs") or r.get("proof_leg_problems", []) + r.get("correspondence_problems", []))][:3]
 finally:
     sh("git -C /repo checkout -- . && git -C /repo clean -fdq")
+    for p, txt in saved.items():
+        open("/verif/evidence/%s.json" % p, "w").write(txt)
+    sh("bin/gen_all")
 meta.setdefault("retests", []).append({"props": res})
 json.dump(meta, open(d + "/meta.json", "w"), indent=1)
 caught = any(v["rc"] != 0 and "VIOLATION" in v["verdict"] for v in res.values())
